@@ -3,7 +3,7 @@ package main
 func init() {
 	register(propSpec{
 		ID: "C05", Pkg: "props/c05", NeedCLI: true,
-		Rule: "cases: (1) exhaustively every codon over the 40 characters the nucleotide alphabet admits (A,C,G,T,U and the 11 IUPAC codes in both cases, '-', X, x, ?, '.', '*', O, o) x 3 genetic codes, translated in frames 0, 1 and 2, plus GenAllPossibleCodons of each; (2) sequences, sequence sets (rows of different lengths) and alignments of 1-5 rows, each in frames 0,1,2 and the three frames at once, length 0-40, drawn from five character tiers (ACGT; ACGTU both cases; IUPAC both cases with gaps; every admitted character; codon structured with third/first position ambiguity, whole-gap and partial-gap codons); (3) CodonAlign of 1-5 ungapped nucleotide rows of length 3k+r (k 1-10, r 0-2) onto the model's own translations with every row's residues placed at drawn columns of a wider protein alignment, rows permuted, optionally one more nucleotide sequence; (4) TranslateByReference on gap-free alignments in frames 0,1,2 and on gapped alignments (gap runs or random gaps) in frame 0 with a drawn reference row; (5) goalign translate (--phase -1..2, --genetic-code, --unaligned, --ref-seq) and codonalign | translate. " +
+		Rule: "cases: (1) exhaustively every codon over the 40 characters the nucleotide alphabet admits (A,C,G,T,U and the 11 IUPAC codes in both cases, '-', X, x, ?, '.', '*', O, o) x 3 genetic codes, translated in frames 0, 1 and 2, plus GenAllPossibleCodons of each; (2) sequences, sequence sets (rows of different lengths) and alignments of 1-5 rows, each in frames 0,1,2 and the three frames at once, length 0-40, drawn from five character tiers (ACGT; ACGTU both cases; IUPAC both cases with gaps; every admitted character; codon structured with third/first position ambiguity, whole-gap and partial-gap codons); (3) CodonAlign of 1-5 ungapped nucleotide rows of length 3k+r (k 1-10, r 0-2) onto the model's own translations with every row's residues placed at drawn columns of a wider protein alignment, rows permuted, optionally one more nucleotide sequence; (4) TranslateByReference on gap-free alignments in frames 0,1,2 and on gapped alignments in frame 0 with a drawn reference row (one third: rows with gap runs or random gaps; two thirds: built around a reference of codons split by 1-6 gap columns or preceded by reference-only gap columns, the other rows block by block identical to the reference, with in-frame/out-of-frame insertions in the gap columns, one base changed, deleted or random, whole rows copied from the reference); (5) goalign translate (--phase -1..2, --genetic-code, --unaligned, --ref-seq) and codonalign | translate. " +
 			"Oracle: NCBI tables 1, 2, 5 in the compact AAs/Base1/Base2/Base3 form and IUPAC codes as sets: a codon gives the amino acid common to all expansions else X, '---' gives '-', anything else X, after case folding and U->T; floor((L-frame)/3) residues, an error exactly when that is 0 for some sequence; three frames give rows name_0,name_1,name_2 per input (sets and alignments); Length() of a translated alignment = floor((L-frame)/3), and = floor(L/3) after the three frames when L = 2 mod 3; codon alignment of length 3 x protein length whose rows without gaps are the nucleotides minus the r trailing bases and whose translation is the protein alignment; reference guided = plain translation on gap-free alignments, and in frame 0 a rectangular result with the same names in the same order whose reference row without gaps is a prefix of the translation of the ungapped reference. " +
 			"Non-trivial: a codon holds an ambiguity code, U, a lower-case letter or a gap, or a length is not a multiple of 3 (translation); the protein alignment has a gap (CodonAlign); >=2 rows and one of the former (reference guided, gap-free) or the reference row has an internal gap and a non-empty translation (gapped). distinct = distinct JSON form of the case (codon+code in the enumeration)",
 		Assumptions: []string{
